@@ -282,6 +282,10 @@ def run_history(job):
 
 
 def replay_input(rp):
+    if "numbering" in rp:
+        gen, nums = rp["numbering"]
+        sig, msg = run_numbering((gen, tuple(nums)))
+        return msg if sig else None
     sig, msg = run_history((rp["gen"], rp["order"], tuple(rp["seq"])))
     return msg if sig else None
 
